@@ -31,9 +31,18 @@ func (r *Registry) GetPID(kind, id string) *PID {
 
 // Remove removes the given PID from the registry.
 func (r *Registry) Remove(pid *PID) {
+	r.removeThen(pid, nil)
+}
+
+// removeThen removes the given PID and runs removed, if any, before the id
+// can be taken by anybody else.
+func (r *Registry) removeThen(pid *PID, removed func()) {
 	r.mu.Lock()
 	defer r.mu.Unlock()
 	delete(r.lookup, pid.ID)
+	if removed != nil {
+		removed()
+	}
 }
 
 // get returns the processer for the given PID, if it exists.
@@ -58,6 +67,12 @@ func (r *Registry) getByID(id string) Processer {
 }
 
 func (r *Registry) add(proc Processer) {
+	r.addThen(proc, nil)
+}
+
+// addThen is add with a hook: registered, if any, runs as soon as proc holds
+// its id, before the id can be given up again, and never for a duplicate.
+func (r *Registry) addThen(proc Processer, registered func()) {
 	r.mu.Lock()
 	id := proc.PID().ID
 	if _, ok := r.lookup[id]; ok {
@@ -66,6 +81,9 @@ func (r *Registry) add(proc Processer) {
 		return
 	}
 	r.lookup[id] = proc
+	if registered != nil {
+		registered()
+	}
 	r.mu.Unlock()
 	proc.Start()
 }
